@@ -209,3 +209,51 @@ func VerifC08Sel2()     { selectByCondition(2, 2, rt.Choose(5), colsBasic) }
 func VerifC08Sel2Tag()  { selectByCondition(2, 2, 4, colsTag) }
 func VerifC08Sel2Conf() { selectByCondition(2, 2, 2, colsConf) }
 func VerifC08Sel3Rows() { selectByCondition(3, 1, rt.Choose(5), colsBasic) }
+
+// sequential: two queries one after the other on the same cache: answering a query must not change what later
+// queries (or the indexes) return.
+func sequential(cfg int, cols []int) {
+	dbm := fix.DBModelS3(clientIndexes(cfg))
+	tc, err := cache.NewTableCache(dbm, nil, nil)
+	rt.Assert(err == nil, "C08: table cache created")
+	rc := tc.Table("Root")
+	var rows []*fix.Row3
+	for i := 0; i < 2; i++ {
+		rows = append(rows, symRow(ids[i], cols))
+	}
+	rt.Assume(legal(rows))
+	for _, r := range rows {
+		rt.Assert(rc.Create(r.UUID, r, true) == nil, "C08: rows of a legal state are created")
+	}
+	run := func(conds []cond) {
+		var wire []ovsdb.Condition
+		for _, c := range conds {
+			wire = append(wire, c.wire())
+		}
+		got, err := rc.RowsByCondition(wire)
+		rt.Assert(err == nil, "C08: well-typed conditions are accepted")
+		n := 0
+		for _, r := range rows {
+			want := true
+			for _, c := range conds {
+				if !c.holds(r) {
+					want = false
+				}
+			}
+			_, in := got[r.UUID]
+			rt.Assert(in == want, "C08: a row is selected iff every condition is true for it, also after earlier queries on the same cache")
+			if in {
+				n++
+			}
+		}
+		rt.Assert(len(got) == n, "C08: nothing else is selected")
+	}
+	first := []cond{symCond(cols), symCond([]int{0, 5})}
+	run(first)
+	rt.Reach("selected")
+	run([]cond{first[0]})
+}
+
+func VerifC08SeqNum()  { sequential(3, []int{2}) }
+func VerifC08SeqTag()  { sequential(1, []int{3}) }
+func VerifC08SeqConf() { sequential(2, []int{4}) }
